@@ -125,6 +125,16 @@ def judge_point(case):
 
     both("hand_built_curve", hand, cmp_hand)
 
+    # ... and with the fluxes handed over as a numpy array / as lists instead of tuples (two points)
+    import numpy as _np
+    for cont, mk in (("numpy", lambda f: _np.array(f)), ("lists", lambda f: [list(z) for z in f])):
+        def hand2(c, mk=mk):
+            c2 = U.composition(min(x * 1.3 + 0.05, 0.97), c.type, mix) if False else U.Composition(p=c.p, type=c.type)
+            return U.DiffusionCurve(mixture=mix, membrane_name="M", feed_temperature=t, feed_compositions=[c, c2],
+                                    partial_fluxes=mk([(0.031, 0.0017), (0.052, 0.0009)]), permeate_temperature=kw.get("permeate_temperature"),
+                                    permeate_pressure=kw.get("permeate_pressure"))
+        both("hand_built_curve/" + cont, hand2, cmp_hand)
+
     # the same NUMBER as a mass fraction and then as a mole fraction on one object (two different physical states):
     # the second answer must equal what a fresh object gives for it
     pv_seq = solver.ObservedPV(membrane=mem, mixture=mix).observe(budget=BUDGET, detect=False)
